@@ -219,11 +219,17 @@ def value_for(rng, shape, key):
     if k == "binding":
         a = rng.choice(["name", "Attr_1", "pop2020"])
         return f"[{a}]", [(f"[{a}]", "raw")], "binding"
+    if k == "expression" and key == "expression" and rng.random() < .15:
+        # a list expression (CLASS / LABEL EXPRESSION {a,b,c}, compared with CLASSITEM; the printer writes braces bare at
+        # the EXPRESSION keyword only): kept exactly as written, whatever its items look like
+        src = rng.choice(["{70,960,00,17,13940}", "{01234,02139}", "{1.50,2.00}", "{+5,-3}", "{TRUE,false}", "{a,b c,d}", "{10,20}"])
+        return src, [(src, "raw")], "expression"
     if k == "expression":
         src, norm = rng.choice(EXPRS)
         return norm, [(src, "raw")], "expression"
     if k == "regex":
-        r = rng.choice(["/^a.*$/", "/[0-9]+/", "/road|rail/"])
+        # regular expressions, and the case-insensitive string comparisons 'text'i / "text"i (written as they are, whatever the output quote)
+        r = rng.choice(["/^a.*$/", "/[0-9]+/", "/road|rail/"] + (["'hawaii'i", '"Road"i'] if key in ("expression", "filter") else []))
         return r, [(r, "raw")], "regex"
     if k == "hexcolor":
         h = rng.choice(["#ff0000", "#AAbb00", "#abc", "#11223344"])
